@@ -81,7 +81,7 @@ type GenOpts struct {
 	MaxBiases    int
 	BiasLikeIds  bool // the arbitrary-string ids include names the biases generate themselves (__concealedCriterion__)
 	PlainIds     bool // ids c<n> / a<n> only (default: one request in eight has some arbitrary-string ids)
-	ValueScales  bool // one request in 16 has all values and declared bounds multiplied by 2^-40, 2^30 or 2^40
+	ValueScales  bool // one request in 16 has all values and declared bounds multiplied by 2^-40, 2^24, 2^30 or 2^40
 	BigTiers     bool // one request in 16 has 8-20 alternatives and up to 12 criteria, one in 1024 has 65-70 alternatives
 	MinAlts      int  // default 1
 	MaxAlts      int  // default 7
@@ -365,11 +365,13 @@ func (s *genState) genProblem(req M) {
 		// the same problem in another unit: every value and declared bound times 2^-40 or 2^30 (exact in binary)
 		f := 1 / float64(int64(1)<<40)
 		lbl := "valuesTiny"
-		switch g.Int(0, 2) {
+		switch g.Int(0, 3) {
 		case 1:
 			f, lbl = float64(int64(1)<<30), "valuesLarge"
 		case 2:
 			f, lbl = float64(int64(1)<<40), "valuesHuge"
+		case 3:
+			f, lbl = float64(int64(1)<<24), "valuesTensOfMillions" // where the 1e-8 rounding meets the float spacing
 		}
 		for _, a := range alts {
 			cm := a["criteria"].(M)
